@@ -23,6 +23,7 @@ import PtModel.HandleDist
 import PtModel.HandleEq
 import PtModel.HandleMapper
 import PtModel.HandleSymShape
+import PtModel.HandleContractShape
 import PtModel.HandleCalls
 namespace Pt
 
@@ -418,6 +419,10 @@ def handle (q : Sx) : String :=
      | none => "err:parse")
   | .list (.atom "calls" :: args) =>
     (match handleCalls args with
+     | some r => "ok " ++ r
+     | none => "err:parse")
+  | .list (.atom "cshape" :: args) =>
+    (match handleContractShape args with
      | some r => "ok " ++ r
      | none => "err:parse")
   | .list [.atom "echo", x] => "ok " ++ x.toStr
